@@ -440,3 +440,90 @@ def _derives_from(t, argname):
             continue
         return False
     return False
+
+
+# ------------------------------------------------------------------------------ inline asm effects
+CONSTRAINT_REG = {"D": "rdi", "S": "rsi", "d": "rdx", "a": "rax", "c": "rcx", "b": "rbx"}
+
+
+def inline_operand_regs(node):
+    """operand index -> register name used in the parsed template ("opN" or a fixed register)"""
+    regs = {}
+    k = 0
+    for o in node.get("outs", []):
+        c = o["c"].lstrip("=+&")
+        regs[k] = CONSTRAINT_REG.get(c, "op%d" % k)
+        k += 1
+    nout = k
+    for i in node.get("ins", []):
+        c = i["c"]
+        if c.isdigit():
+            regs[k] = regs[int(c)]
+        else:
+            regs[k] = CONSTRAINT_REG.get(c, "op%d" % k)
+        k += 1
+    return regs, nout
+
+
+def inline_effects(eff):
+    """which input operands of an inline-asm effect are read / written through (as pointers).
+    returns {"reads": [terms], "writes": [terms], "items": parsed items}"""
+    node = eff["node"]
+    items = inline_items(node["template"])
+    check_mnemonics(items, "inline asm at line %s" % node.get("l"))
+    regs, nout = inline_operand_regs(node)
+    root = {}        # register -> input operand index it derives from
+    for k, (c, term) in enumerate(eff["ins"]):
+        r = regs[nout + k]
+        root[r] = k
+    reads, writes = set(), set()
+    for it in items:
+        if not isinstance(it, Ins):
+            continue
+        args = it.args
+        for j, a in enumerate(args):
+            if a[0] == "mem" and it.op != "leaq":
+                base = SUB.get(a[2], (a[2], 8))[0] if a[2] else None
+                k = root.get(base)
+                if k is None:
+                    continue
+                is_store = (j == len(args) - 1) and not it.op.startswith(("cmp", "test"))
+                (writes if is_store else reads).add(k)
+        # register-to-register derivations
+        if it.op in ("movq", "mov", "movl") and len(args) == 2 and args[0][0] == "reg" and args[1][0] == "reg":
+            src = SUB.get(args[0][1], (args[0][1], 8))[0]
+            dst = SUB.get(args[1][1], (args[1][1], 8))[0]
+            if src in root:
+                root[dst] = root[src]
+            else:
+                root.pop(dst, None)
+        elif it.op == "leaq" and args[0][0] == "mem" and args[1][0] == "reg":
+            base = SUB.get(args[0][2], (args[0][2], 8))[0] if args[0][2] else None
+            dst = SUB.get(args[1][1], (args[1][1], 8))[0]
+            if base in root:
+                root[dst] = root[base]
+            else:
+                root.pop(dst, None)
+        elif it.op in ("movq", "movl", "mov", "vmovd", "vmovq") and len(args) == 2 and args[0][0] == "mem" and args[1][0] == "reg":
+            dst = SUB.get(args[1][1], (args[1][1], 8))[0]
+            root.pop(dst, None)
+    ins = [t for _, t in eff["ins"]]
+    return {"reads": [ins[k] for k in sorted(reads)], "writes": [ins[k] for k in sorted(writes)], "items": items,
+            "regs": regs, "nout": nout}
+
+
+def modified_output_operands(node):
+    """indexes of output operands whose register is the destination of some instruction of the template
+    (an output that is only read, e.g. a pointer used as (%2), keeps its value)"""
+    items = inline_items(node["template"])
+    regs, nout = inline_operand_regs(node)
+    written = set()
+    for it in items:
+        if not isinstance(it, Ins) or not it.args:
+            continue
+        if it.op.startswith(("cmp", "test")) or it.op in JCC or it.op in ("jmp", "pushq"):
+            continue
+        d = it.args[-1]
+        if d[0] == "reg":
+            written.add(SUB.get(d[1], (d[1], 8))[0])
+    return {k for k in range(nout) if regs[k] in written}
